@@ -31,15 +31,32 @@ THEOREMS = [_T + n for n in (
     "string_truncated",
     # clause "option symbols translated to their index"
     "option_symbol_translated",
-    # clause "at the port's full address", scalar ports (partial: restricted matcher, no array ports, no rRecur walk)
+    # clause "at the port's full address", one port over the restricted matcher of Param/Port.lean: scalar ports ...
     "dispatch_scalar_at_address", "macro_specs_accept", "portMatches_scalar",
+    # ... and array ports (name<k> reaches element k iff k < N, nothing else is delivered)
+    "dispatch_array_at_address", "dispatch_array_only", "array_callback_runs_element",
+    "portMatches_array", "portMatches_array_only",
+    # ... through the rRecur address walk of Ports::dispatch (C04's model), trees of any depth: loc = full address
+    "delivery_through_recur", "full_address_base",
+    # the restricted matcher agrees with C05's matcher (used by C04's dispatch) on macro names
+    "matchB_scalar", "matchB_array", "matchB_array_conv", "matchArgs_typesCode",
+    # integer fields / variables of every C integer type (unsigned short, unsigned, long, unsigned long):
+    # conservative extension of intCb, same clauses
+    "intCbW_eq_intCb", "limitIntW_eq_limit", "limitIntW_inRange",
+    "stored_is_clamped_int_wide", "stored_int_in_var_type_wide", "query_replies_and_preserves_int_wide",
+    "change_is_broadcast_int_wide", "undo_event_iff_changed_int_wide",
+    # finding: negative declared bound of an unsigned variable
+    "limitIntW_clamps_counterexample", "limitIntW_clamps_partial", "boundOutsidePromoted_signed",
     # the float order the clamping theorems assume is the one of the bit-pattern model
     "fltOps_ordered", "intOps_ordered",
     # a non-NaN float is reported with its own bit pattern (float -> double -> float of the variadic call)
     "fArg_of_not_nan",
     # finding C14-K1: the bound an integer port uses vs. the declared literal
     "declared_int_bound_respected_counterexample", "declared_int_bound_respected_partial",
-)]
+)] + [
+    # what the callback of one given port of a tree is handed by Ports::dispatch (C04's model), any depth
+    "Rtosc.Ports.semLoc_handed", "Rtosc.Ports.dispatch_handed",
+]
 HARNESS = {"src": ["param.cpp"], "deps": ["common.h"]}
 RULE = ("one op line = one port of the fixed table in harness/param.cpp (89 ports: every port macro x several declared "
         "ranges: negative, fractional, one-sided, absent, outside the type of the callback's variable; storage "
@@ -71,19 +88,35 @@ ASSUMPTIONS = [
     "alternative accepts them)",
     "integer ports: the clamping theorems are about the bound the callback uses, atoi(metadata literal); that this "
     "bound lies inside the declared literal range holds outside the trigger boundTruncatedOutward (finding C14-K1)",
-    "field types of the integer kinds: char, unsigned char, short, int and int-based enums (IntTy); unsigned, long and "
-    "64-bit fields are not modelled",
-    "delivery (`at the port's full address`) is a theorem only for scalar macro ports over the restricted matcher of "
-    "Param/Port.lean (dispatch_scalar_at_address: the callback runs exactly when the path below the object is the port's "
-    "name, with loc = object address ++ name); array ports and the rRecur walk that builds the object's address are "
-    "compared with the implementation on every generated message only; C04/C05 own that claim",
+    "field types of the integer kinds: char, unsigned char, short, int and int-based enums (IntTy) are executed by the "
+    "engine and compared with the compiled macros; unsigned short, unsigned, long, unsigned long (LP64) are covered by "
+    "the theorems `..._int_wide` over intCbW (Param/Wide.lean), which is proved equal to the executed model on the four "
+    "IntTy types (intCbW_eq_intCb) but is not itself compared with the implementation (no port of the harness table has "
+    "such a field; checked once by hand against the compiled macros); for these types the clamping theorem needs the "
+    "declared bounds to be values of decltype(var+0) - not negative for unsigned / unsigned long (trigger "
+    "boundOutsidePromoted, limitIntW_clamps_counterexample: rParamI on an `unsigned` with rLinear(-1,10) stores 10 for "
+    "incoming 5) - and messages carry the low 32 bits of a value",
+    "delivery (`at the port's full address`): for one port over the restricted matcher of Param/Port.lean "
+    "(dispatch_scalar_at_address, dispatch_array_at_address, dispatch_array_only: the callback runs exactly when the path "
+    "below the object is the port's name, resp. name<k> with k < N, with loc = object address ++ path, and an array "
+    "callback acts on element k); through the rRecur walk for the model of Ports::dispatch that C04 owns "
+    "(delivery_through_recur: port trees of C04's scope - literal names and #N, one path component per sub-tree level, "
+    "no `{}` groups -, any depth, linear or hashed tables, dispatch with a location buffer; port names of the macro "
+    "ports contain none of ':' '{' '*' '/' '#'; index digit runs below 2^31); that C04's model is what ports.cpp does "
+    "is C04's correspondence",
 ]
 TRUSTED = [
     "hand-written model RtoscModel/Param/{Num,Sugar,Port}.lean of rLIMIT, rCAPPLY/rAPPLY, rParamCb, rParamFCb, rParamICb, "
     "rCOptionCb_, rToggleCb, rStringCb, rBOILS_BEGIN, rArray*Cb incl. rArrayTCbMember (port-sugar.h) and enum_key (ports.cpp)",
     "modelled, not verified: atoi, (float)atof for decimal literals (Param/Num.lean), rtosc_vmessage/rtosc_argument "
     "transporting int32/string values unchanged and floats through double (signalling NaN quieted), the restricted "
-    "rtosc_match used to decide whether the callback runs",
+    "rtosc_match used to decide whether the callback runs (proved to agree with C05's matcher on the macro names: "
+    "matchB_scalar, matchB_array, matchB_array_conv)",
+    "for delivery_through_recur: C04's model of Ports::dispatch / rRecurCb / SNIP (RtoscModel/Ports/*.lean) and C05's "
+    "matcher, validated by the correspondence runs of C04 and C05, not of this property",
+    "RtoscModel/Param/Wide.lean (integer callbacks for unsigned short / unsigned / long / unsigned long): hand-written, "
+    "validated only by its proved equality with the executed model on char/unsigned char/short/int and by a one-off "
+    "probe of the compiled macros (unsigned, long, unsigned short, unsigned long fields; 21 messages)",
     "RtoscModel/Meta.lean (C17) for prop[\"min\"], prop[\"max\"] and the iteration in enum_key",
     "the expansion tables of the metadata macros (OPTIONS_IMPn, rOptionsBound, DOC_IMPn) are not modelled: the model reads "
     "the metadata block they generate; only the oracle's positional symbol map (rOptions arity 1..24) checks them",
@@ -93,12 +126,20 @@ LEVEL_TEXT = ("Lean theorems for the callback macros rParamCb, rParamICb, rParam
               "ranges that meet the variable's type, arrays of every length; not rParamsCb, which only replies a blob): "
               "stored value is the clamped incoming value, queries reply and preserve, changes are broadcast, exactly one "
               "/undo_change with the true old and new value iff changed, arrays touch only the addressed element, strings "
-              "truncated, symbols translated; the callback theorems take the location as a free variable, delivery at the "
-              "port's address is proved for scalar ports only (restricted matcher); the model is compared with the compiled macros on tens of thousands of generated histories per run "
+              "truncated, symbols translated; integer fields of every C integer type (unsigned short, unsigned, long, unsigned long "
+              "as a proved-conservative extension of the executed model); delivery at the port's full address: scalar and "
+              "array ports (name<k> reaches element k iff k < N, nothing else is delivered) over the restricted matcher, and "
+              "through the rRecur address walk of C04's Ports::dispatch model for port trees of any depth (loc = full "
+              "address, msg = the port's own part, object and port pointer handed down; the restricted matcher agrees with "
+              "C05's on macro names); the model is compared with the compiled macros on tens of thousands of generated histories per run "
               "and the property is evaluated by an independent Python reference on the implementation's own output")
-LEVEL_NOTE = ("Not covered by a theorem: delivery to array ports and the address built by rRecur, the "
-              "metadata expansion macros (OPTIONS_IMPn etc., checked by the positional oracle only), field types other than "
-              "char/unsigned char/short/int. rOptionsBound(a,b,c) declares max = 3 (the number of symbols, one more than "
+LEVEL_NOTE = ("Not covered by a theorem: the metadata expansion macros (OPTIONS_IMPn etc., checked by the positional "
+              "oracle only); dispatch without a location buffer (the sugar callbacks dereference data.loc); sub-trees "
+              "entered through rRecurs/rRecurp index hand-down (the object of element k) - delivery_through_recur identifies "
+              "objects by table path only; 64-bit and unsigned fields are theorem-only (no harness port), option ports on "
+              "wide fields are not covered. Open finding for the maintainers (not patched): rLIMIT on an unsigned / unsigned "
+              "long variable converts a negative declared bound to a huge value (limitIntW_clamps_counterexample). "
+              "rOptionsBound(a,b,c) declares max = 3 (the number of symbols, one more than "
               "the largest index): the check follows the declared metadata. Indices whose digits overflow `int` and float "
               "bounds given as hex/inf/nan literals are outside the model (explicit `unsup`), and outside the generator.")
 
